@@ -64,6 +64,16 @@ def dataset(rng, d=None, n_classes=None, per_class=None, sep=2.0, bits=GRID_BITS
       return X, y
 
 
+def documented_pairs(X, cons):
+  """what the Constraints helper's output MEANS (written out here, not taken from the library's wrap_pairs): the pairs
+  (X[a_i], X[b_i]) labelled +1 followed by the pairs (X[c_i], X[d_i]) labelled -1"""
+  a, b, c, d = (np.asarray(v, dtype=int) for v in cons)
+  X = np.asarray(X)
+  pairs = np.concatenate([np.stack([X[a], X[b]], axis=1), np.stack([X[c], X[d]], axis=1)], axis=0) \
+      if len(a) + len(c) else np.zeros((0, 2, X.shape[1]))
+  return pairs, np.array([1] * len(a) + [-1] * len(c))
+
+
 def pairs_from(rng, X, y, n_pairs):
   """index pairs (i,j), labels +1 (same class) / -1, both labels present, i != j"""
   n = len(y)
